@@ -2147,7 +2147,7 @@ func main() {
 	nFds, nMerge, nMergeBig, nPage, nAggBig, nHist := 700, 600, 8, 800, 6, 350
 	if *tier == "thorough" {
 		nSearch, nSeq, nFetch, nDocs = 40000, 15000, 25000, 12000
-		nFds, nMerge, nMergeBig, nPage, nAggBig, nHist = 12000, 12000, 60, 14000, 40, 6000
+		nFds, nMerge, nMergeBig, nPage, nAggBig, nHist = 6000, 6000, 40, 8000, 30, 3000
 	}
 	scripts := genExhaustive()
 	w.Exhaust = true
